@@ -1439,6 +1439,38 @@ pub struct AddHandler(pub HandlerId);
 #[derive(GlobalEvent, Clone, Copy, PartialEq, Eq, PartialOrd, Ord, Hash, Debug)]
 pub struct RemoveHandler(pub HandlerId);
 
+#[cfg(feature = "verif-hooks")]
+impl HandlerList {
+    pub(crate) fn verif_dump(&self) -> alloc::string::String {
+        use core::fmt::Write;
+        let mut s = alloc::string::String::new();
+        write!(s, "before={} after={} [", self.before, self.after).unwrap();
+        for (i, p) in self.entries.iter().enumerate() {
+            let id = unsafe { p.as_info() }.id();
+            write!(s, "{}{}v{}", if i > 0 { "," } else { "" }, id.index().0, id.generation()).unwrap();
+        }
+        s.push(']');
+        s
+    }
+}
+
+#[cfg(feature = "verif-hooks")]
+impl Handlers {
+    pub(crate) fn verif_snapshot(&self, out: &mut alloc::string::String) {
+        use core::fmt::Write;
+        for (i, l) in self.by_global_event.iter().enumerate() {
+            writeln!(out, "glist {i} {}", l.verif_dump()).unwrap();
+        }
+        out.push_str("hord [");
+        for (i, p) in self.by_insert_order.values().enumerate() {
+            let id = unsafe { p.as_info() }.id();
+            write!(out, "{}{}v{}", if i > 0 { "," } else { "" }, id.index().0, id.generation()).unwrap();
+        }
+        out.push_str("]\n");
+        writeln!(out, "hlen {}", self.infos.len()).unwrap();
+    }
+}
+
 #[cfg(test)]
 mod tests {
     use evenio::prelude::*;
